@@ -434,9 +434,14 @@ func DriveTree(r *rec.Rec, rng *rand.Rand, run, ops int, variant string) {
 			var k int
 			switch {
 			case wantDel && drain == 1: // from the left
-				k, _ = m.First()
+				// steering through the library itself: recorded calls, so that a crash is an event, not a dead driver
+				if kv, ok := call("First", []int{}, false, func() any { k, v := m.First(); return []int{k, v} }).([]int); ok {
+					k = kv[0]
+				}
 			case wantDel && drain == 2: // from the right
-				k, _ = m.Last()
+				if kv, ok := call("Last", []int{}, false, func() any { k, v := m.Last(); return []int{k, v} }).([]int); ok {
+					k = kv[0]
+				}
 			case wantDel && drain == 3:
 				k = anyPresent()
 			case rng.Intn(3) == 0:
